@@ -48,8 +48,10 @@ static uint32_t TT[4];
 static uint32_t DATA[3];
 static unsigned want_sym, want_len, have_want;
 
+static int step_mode;
 static void verif_point_SYMBOL_SLOW(unsigned x)
 {
+  if (step_mode) { if (seen >= 1) CUT(); /* a second symbol cannot be reached with one input word */ seen++; seen_symbol = x & 0xFFFF; seen_len = x >> 16; return; }
   seen = 1; seen_symbol = x & 0xFFFF; seen_len = x >> 16;
   WITNESS("symbol_decoded");
   if (want_len > HUFF_START_WIDTH) WITNESS("symbol_longer_than_start_table");
@@ -112,6 +114,86 @@ void h_tree_symbol(void)
 #endif
   (void)retrieve(&DS, &bs);
   PROP(seen, "a complete table decodes a symbol");   /* reached only when the hook did not cut */
+}
+
+/* ------------------------------------------------------------------------------------------------
+ * h_symbol_step: ONE prefix symbol of the MTF-value stage, from an ARBITRARY valid run state.
+ * retrieve() is resumed at S_PREFIX with exactly one 32-bit input word (so exactly one symbol is
+ * decoded and processed before it suspends, finishes the block or fails).  The coding table is a
+ * fixed complete code over the 4-symbol alphabet {RUN-A:0, RUN-B:10, byte#1:110, end-of-block:111}
+ * (built by the real make_tree()); run length, shift, run byte, fill level of the block, the
+ * primary index and the input bits are symbolic.  SCALED: MAX_BLOCK_SIZE = VERIF_MAX_BLOCK_SIZE.
+ * Reference: zero-run accumulation (bijective base 2), run flush with the block-capacity check
+ * ("block overflow"), inverse move-to-front of the first list operation, end-of-block checks
+ * ("empty block", "primary index too large").
+ */
+static uint32_t TTB[MAX_BLOCK_SIZE < 64 ? MAX_BLOCK_SIZE : 64];
+struct sym_in { unsigned run, shift, runchar, fill, bwt_idx, word; };
+
+void h_symbol_step(void)
+{
+  LOAD_INPUTS();
+  struct bitstream bs;
+  /* symbolic state packed into the generic input fields */
+  unsigned run = IN.len[0], shift = IN.len[1], runChar = IN.len[2] & 0xFF, fill = IN.len[3], bwt_idx = IN.alpha, i;
+  ASSUME(MAX_BLOCK_SIZE <= 64);
+  ASSUME(fill <= MAX_BLOCK_SIZE);
+  /* invariant of the run state: `shift` RUN symbols were seen, each adding at least 1<<k, and RUN symbols
+     are only accepted while run <= MAX_BLOCK_SIZE; a flushed state is run=1/0, shift=0 */
+  ASSUME(shift <= 20 && run >= (1u << shift) - 1u && run <= 2u * MAX_BLOCK_SIZE + 2u);
+  ASSUME(shift == 0 || ((run - (1u << (shift - 1))) <= MAX_BLOCK_SIZE));   /* the last accepted RUN symbol found run <= MAX_BLOCK_SIZE */
+
+  DS.internal_state = &RS; DS.tt = TTB; DS.block_size = fill; DS.bwt_idx = bwt_idx;
+  RS.num_trees = 1; RS.t = 0; RS.num_selectors = 1; RS.selector[0] = 0; RS.g = 0;
+  RS.mtf[0] = 0; RS.mtf[1] = 1; RS.mtf[2] = 2; RS.mtf[3] = 3; RS.mtf[4] = 4; RS.mtf[5] = 5;
+  RS.alpha_size = 4;
+  RS.code_len[0] = 1; RS.code_len[1] = 2; RS.code_len[2] = 3; RS.code_len[3] = 3;
+  make_tree(&RS);
+  PROP(RS.mtf[0] == 0, "the fixed code of this query is complete");
+  /* inverse-MTF list as retrieve() initialises it: two byte values in use, 7 and 9 */
+  for (i = 0; i < 256; i++) RS.imtf_slide[CMAP_BASE + i] = (uint8_t)(i == 0 ? 7 : i == 1 ? 9 : 0);
+  for (i = 0; i < NUM_ROWS; i++) RS.imtf_row[i] = RS.imtf_slide + CMAP_BASE + i * ROW_WIDTH;
+  memset(DS.ftab, 0, sizeof DS.ftab);
+  RS.state = S_PREFIX; RS.j = 0; RS.run = run; RS.shift = shift; RS.runChar = runChar;
+  DATA[0] = htonl(IN.word0);
+  bs.live = 0; bs.buff = 0; bs.block = 0; bs.eof = false; bs.data = DATA; bs.limit = DATA + 1;
+
+  /* reference */
+  unsigned w = IN.word0, sym, klen;   /* 0 RUN-A, 1 RUN-B, 2 byte, 3 EOB */
+  if (!(w >> 31)) { sym = 0; klen = 1; } else if (!((w >> 30) & 1)) { sym = 1; klen = 2; } else if (!((w >> 29) & 1)) { sym = 2; klen = 3; } else { sym = 3; klen = 3; }
+  int want = MORE; unsigned wrun = run, wshift = shift, wchar = runChar, wfill = fill;
+  if (sym == 3) {
+    if (run > MAX_BLOCK_SIZE - fill) want = ERR_OVERFLOW;
+    else { wfill = fill + run; want = wfill == 0 ? ERR_EMPTY : bwt_idx >= wfill ? ERR_BWTIDX : OK; }
+  } else if (sym <= 1 && run <= MAX_BLOCK_SIZE) {
+    wrun = run + ((sym + 1u) << shift); wshift = shift + 1;
+  } else {
+    if (run > MAX_BLOCK_SIZE - fill) want = ERR_OVERFLOW;
+    else { wfill = fill + run; wchar = 9; wrun = 1; wshift = 0; }      /* list position 1 (second entry) moves to the front */
+  }
+
+  seen = 0; step_mode = 1;
+  int rv = -1;
+#ifdef REPLAY
+  if (!setjmp(cut_jmp))
+#endif
+  rv = retrieve(&DS, &bs);
+  step_mode = 0;
+
+  if (want == OK) WITNESS("block_complete");
+  if (want == ERR_OVERFLOW) WITNESS("block_overflow_detected");
+  if (want == ERR_BWTIDX) WITNESS("primary_index_outside_block");
+  if (want == MORE && sym <= 1) WITNESS("zero_run_extended");
+  if (want == MORE && sym == 2) WITNESS("run_flushed_and_byte_decoded");
+  PROP(seen == 1 && seen_len == klen, "exactly one symbol is decoded from one input word");
+  PROP(rv == want, "verdict after one symbol: block overflow / empty block / primary index are detected exactly (C05/C07)");
+  if (want == MORE) {
+    PROP(RS.run == wrun && RS.shift == wshift && RS.runChar == wchar, "run length, shift and current byte follow the zero-run / move-to-front rules");
+    PROP(DS.block_size == wfill, "bytes written to the block so far");
+    for (i = 0; i < 64; i++) if (i < MAX_BLOCK_SIZE) PROP(i < fill || i >= wfill || TTB[i] == runChar, "a flushed run writes exactly its byte into the block");
+    PROP(wfill == fill || DS.ftab[runChar] == wfill - fill, "byte frequency table counts the flushed run");
+  }
+  if (want == OK) PROP(DS.block_size == wfill, "final block size");
 }
 
 HARNESS_MAIN(REPLAY_ENTRY)
